@@ -127,7 +127,9 @@ def visit : T → List Nat
     | .sleep _ => []
     | .dummy => []
     | .seq m => visitSeq m cs
-    | .par _ => []          -- (not covered: the children of a ParallelAction interleave by loop pass)
+    | .par _ => visitAll cs  -- `ParallelAction::onStart` starts every child, in child order, inside start(): for Function / Sleep
+                             -- children these are ALL the calls (`fnIds`, ParLeaves.lean); for composite children it is the order
+                             -- in which the children are started, their later calls interleave by loop pass (not covered)
     | .ifElse hasThen hasElse =>
         visitAt cs 0 ++
         (match evalAt cs 0 with
@@ -154,6 +156,9 @@ def visit : T → List Nat
           else (List.replicate n (visitAt cs 0)).flatten
     | .wrapper _ => visitAt cs 0
     | .composite => visitAt cs 0
+def visitAll : TL → List Nat
+  | .nil => []
+  | .cons t ts => visit t ++ visitAll ts
 def visitAt : TL → Nat → List Nat
   | .nil, _ => []
   | .cons t _, 0 => visit t
